@@ -77,6 +77,7 @@ func (e *Exec) noteFn(fn *ssa.Function) {
 
 func (e *Exec) check(extra *Term) Result {
 	conds := append(append([]*Term{}, e.pc...), extra)
+	e.w.solver.Declare(e.inputs)
 	r := e.w.solver.Check(conds)
 	e.w.stats.FeasQueries++
 	return r
@@ -364,7 +365,13 @@ func (e *Exec) assertion(c *Term, id string) {
 	nc := e.ctx.BNot(c)
 	var r Result
 	if nc.IsTrue() {
-		r = Sat
+		// the assertion fails on this path for sure: what remains to decide is whether the path itself is feasible
+		// (a feasibility query answered "unknown" keeps a path alive)
+		nc = nil
+		r = e.w.decide(e, e.ctx.True)
+		if r == Unsat {
+			panic(pathEnd{"infeasible", "path infeasible (found at a failing assertion)"})
+		}
 	} else {
 		r = e.w.decide(e, nc)
 	}
@@ -404,14 +411,19 @@ func (e *Exec) reportViolation(kind, id, msg string, extra *Term, where string) 
 		conds = append(conds, extra)
 	}
 	var m Model
-	if e.model != nil && extra == nil {
+	switch {
+	case e.model != nil && extra == nil:
 		m = e.model
-	} else {
+	case extra != nil && e.w.lastModel != nil:
+		m = e.w.lastModel // model of the deciding query that just answered sat
+	default:
 		if e.w.solver.Check(conds) == Sat {
 			m, _ = e.w.solver.Values(e.bvInputs())
-		} else if e.w.lastModel != nil {
-			m = e.w.lastModel
 		}
+	}
+	if m == nil && len(e.inputs) > 0 {
+		e.w.stats.notEstablished("violation candidate (" + id + ") on a path whose feasibility the solver could not decide")
+		return
 	}
 	v := Violation{Harness: e.h.Name, ID: id, Kind: kind, Msg: msg, Inputs: map[string]uint64{}, Params: e.h.Params, Known: e.known, Where: where}
 	if m != nil {
